@@ -84,7 +84,7 @@ def make_fn(world, name, param):
         if name == "append_copy":
             return list(v) + list(v)[:1]
         if name == "empty":
-            return type(v)() if isinstance(v, (list, set, dict)) else v
+            return type(v)() if isinstance(v, (list, set, dict)) or hasattr(v, "keys") else v
         if name == "with_first":
             # a new object derived from v through its own copy-on-write API
             for a in getattr(getattr(v, "__spec_class__", None), "attrs", {}):
@@ -227,7 +227,8 @@ def gen_scalar_call(src, world, cname, attr, inplace, bad_rate):
         if T[0] == "spec":
             if src.chance(1, 4):
                 args = [gen_arg_value(src, T, bad_rate)]
-            k.update(gen_nested_kwargs(src, T[1], bad_rate))
+            if not src.chance(1, 5):  # 1 in 5: bare update_<attr>() with nothing to update
+                k.update(gen_nested_kwargs(src, T[1], bad_rate))
         else:
             args = [gen_arg_value(src, T, bad_rate)]
         return {"t": "call", "m": f"update_{attr}", "a": args, "k": k}
